@@ -819,7 +819,9 @@ func (c *Core) drawC02(ch *Chooser, g *Gen, s *Sim, tier string) {
 		if len(frame) > 2 {
 			valid(cl)
 		}
-		if ch.Choose(3) == 0 {
+		if ch.Choose(3) == 0 || (block < nBlocks && block*B+k >= canonTotal) {
+			// (a tiny stream always ends after its one or two bytes: that, and
+			// not a connection left open, is the enumerated case)
 			cl.Steps = append(cl.Steps, CStep{Kind: stClose})
 		}
 		cfg.Clients = append(cfg.Clients, cl)
